@@ -21,7 +21,8 @@ contract(
     params={"idx": Int, "start": Opt(DT), "granularity": Int}, ret=Opt(DT),
     requires=[("g", "granularity >= 1"), ("range", f"-{I32} <= idx * granularity and idx * granularity <= {I32}")],
     ensures=[("none", "iff(result is None, start is None)"),
-             ("linear", "implies(start is not None, secs(some(result)) == secs(some(start)) + idx * granularity)")],
+             ("linear", "implies(start is not None, secs(some(result)) == secs(some(start)) + idx * granularity)"),
+             ("usec", "implies(start is not None, isint((secs(some(result)) - secs(some(start))) * 1000000))")],
 )
 
 contract(
@@ -44,7 +45,8 @@ for _v, _cy in (("py", False), ("cy", True)):
         requires=[("g", "PG(self) >= 1")] + ([("c-range", f"-{I32} <= idx and idx <= {I32} and PG(self) <= {I32} and "
                                                f"-{I32} <= idx * PG(self) and idx * PG(self) <= {I32}")] if _cy else []),
         ensures=[("none", "iff(result is None, self.attributes['start'] is None)"),
-                 ("linear", "implies(self.attributes['start'] is not None, some(result) == PT(self, idx))")],
+                 ("linear", "implies(self.attributes['start'] is not None, some(result) == PT(self, idx))"),
+                 ("usec", "implies(self.attributes['start'] is not None, isint((secs(some(result)) - secs(PStart(self))) * 1000000))")],
         calls={"project_idx_to_date": ("contract", TCY + "::project_idx_to_date")},
     )
     contract(
